@@ -352,8 +352,9 @@ Qed.
 
 Lemma named_new_object g p name : Rep g -> Named g -> Named (fst (new_object fmt lower g p name)).
 Proof.
-  intros [R1 [R2 R3]] [[r [Hr Ir]] Hn]. unfold new_object.
+  intros [R1 [R2 [R3 R4]]] [[r [Hr Ir]] Hn]. unfold new_object.
   destruct (g_st g p) as [po|] eqn:Hp; [|split; [exists r; split; assumption|exact Hn]].
+  destruct (memb p (g_tabs g)); [split; [exists r; split; assumption|exact Hn]|].
   cbn [fst]. split.
   - cbn [g_st]. unfold upd. destruct (0 =? p) eqn:E0.
     + apply Nat.eqb_eq in E0. subst p. rewrite Hr in Hp. inversion Hp; subst po.
@@ -377,14 +378,41 @@ Proof.
   - assert (Lc : listed g c).
     { apply lookup_in in Lk. destruct (wf_children _ _ W p po Np Hp) as [C1 C2]. apply C1. eapply C2, Lk. }
     apply IH; try assumption. right. exact Lc.
-  - pose proof (new_object_inv fmt lower g p n R W Np) as NI.
-    assert (Hfree : forall po0, g_st g p = Some po0 -> lookup (lower (fmt n)) (o_cmap po0) = None).
-    { intros po0 H0. rewrite Hp in H0. inversion H0; subst. exact Lk. }
-    specialize (NI Hfree). cbn zeta in NI.
-    pose proof (named_new_object g p n R Nm) as Nm1.
-    destruct (new_object fmt lower g p n) as [g1 c]. cbn [fst snd] in *.
-    destruct NI as [R1 [W1 [Lc _]]].
-    apply IH; try assumption. right. exact Lc.
+  - destruct (in_dec Nat.eq_dec p (g_tabs g)) as [Tp|Tp].
+    + rewrite (new_object_table fmt lower g p n Tp). apply IH; assumption.
+    + pose proof (new_object_inv fmt lower g p n R W Np) as NI.
+      assert (Hfree : forall po0, g_st g p = Some po0 -> lookup (lower (fmt n)) (o_cmap po0) = None).
+      { intros po0 H0. rewrite Hp in H0. inversion H0; subst. exact Lk. }
+      specialize (NI Hfree Tp). cbn zeta in NI.
+      pose proof (named_new_object g p n R Nm) as Nm1.
+      destruct (new_object fmt lower g p n) as [g1 c]. cbn [fst snd] in *.
+      destruct NI as [R1 [W1 [Lc _]]].
+      apply IH; try assumption. right. exact Lc.
+Qed.
+
+Lemma named_ensure_child_edge : forall path g p, Rep g -> WF g -> node g p -> Named g ->
+  Named (fst (ensure_child_edge fmt lower g p path)).
+Proof.
+  induction path as [|n rest IH]; intros g p R W Np Nm; [exact Nm|].
+  cbn [ensure_child_edge]. destruct (memb p (g_tabs g)); [exact Nm|].
+  pose proof (ensure_child_inv fmt lower [n] g p R W Np) as I1. cbn zeta in I1.
+  pose proof (named_ensure_child [n] g p R W Np Nm) as Nm1.
+  destruct (ensure_child fmt lower g p [n]) as [g1 c]. cbn [fst snd] in *.
+  destruct I1 as [R1 [W1 [N1 _]]]. apply IH; assumption.
+Qed.
+
+Lemma named_make_table g k : Named g -> Named (make_table g k).
+Proof.
+  intros [[r [Hr Ir]] Hn]. unfold make_table.
+  destruct (g_st g k) as [o|] eqn:Ho; [|split; [exists r; split; assumption|exact Hn]].
+  match goal with |- Named (if ?c then _ else _) => destruct c end; [|split; [exists r; split; assumption|exact Hn]].
+  split.
+  - cbn [g_st]. unfold upd. destruct (0 =? k) eqn:E.
+    + apply Nat.eqb_eq in E. subst k. rewrite Hr in Ho. inversion Ho; subst o. eexists. split; [reflexivity|exact Ir].
+    + exists r. split; assumption.
+  - intros x ox Hx H. cbn [g_st] in H. unfold upd in H. destruct (x =? k) eqn:E.
+    + apply Nat.eqb_eq in E. subst x. inversion H; subst ox. cbn [o_id o_name]. apply (Hn k o Hx Ho).
+    + apply (Hn x ox Hx H).
 Qed.
 
 (* Connect's index invariant: no two connections agree on end points, arrows and index, and every index is
@@ -430,58 +458,80 @@ Proof. split; [constructor|intros e []]. Qed.
 Lemma edgeinv_same_edges g g' : g_edges g' = g_edges g -> EdgeInv g -> EdgeInv g'.
 Proof. unfold EdgeInv. intros E H. rewrite E. exact H. Qed.
 
-(* all three invariants along every operation sequence *)
-Definition Inv (g : graph) : Prop := Rep g /\ WF g /\ Named g /\ EdgeInv g.
+(* all invariants along every operation sequence that does not turn the root into a class / sql_table *)
+Definition Inv (g : graph) : Prop := Rep g /\ WF g /\ Named g /\ EdgeInv g /\ ~ In 0 (g_tabs g).
 
 Lemma inv_ensure_child g p path : Inv g -> node g p ->
-  Inv (fst (ensure_child fmt lower g p path)) /\ node (fst (ensure_child fmt lower g p path)) (snd (ensure_child fmt lower g p path))
-  /\ (forall k, listed g k -> listed (fst (ensure_child fmt lower g p path)) k).
+  let g' := fst (ensure_child fmt lower g p path) in
+  let r := snd (ensure_child fmt lower g p path) in
+  Inv g' /\ node g' r /\ (path <> [] -> listed g' r \/ (r = p /\ In p (g_tabs g))).
 Proof.
-  intros [R [W [Nm EI]]] Np.
+  intros [R [W [Nm [EI T0]]]] Np.
   pose proof (ensure_child_inv fmt lower path g p R W Np) as I. cbn zeta in I.
-  destruct I as [R' [W' [N' [_ [M' E']]]]].
+  destruct I as [R' [W' [N' [L' [M' [E' T']]]]]]. cbn zeta.
   split; [|split; assumption].
-  split; [exact R'|split; [exact W'|split]].
+  split; [exact R'|split; [exact W'|split; [|split]]].
   - apply named_ensure_child; assumption.
   - eapply edgeinv_same_edges; eassumption.
+  - rewrite T'. exact T0.
 Qed.
 
-Lemma inv_apply_op g o : Inv g -> Inv (apply_op fmt lower g o).
+Lemma inv_connect g p src dst sa da : Inv g -> node g p -> src <> [] -> dst <> [] ->
+  Inv (connect fmt lower g p src dst sa da).
 Proof.
-  intros I. destruct o as [scope path|scope src dst sa da]; cbn [apply_op].
+  intros [R [W [Nm [EI T0]]]] Np Hs Hd.
+  assert (Hp : listed g p \/ ~ In p (g_tabs g)) by (destruct Np as [E|L]; [right; subst p; exact T0|left; exact L]).
+  destruct (connect_inv fmt lower g p src dst sa da R W Np Hp Hs Hd) as [R' [W' T']].
+  split; [exact R'|split; [exact W'|]].
+  unfold connect in *.
+  pose proof (ensure_child_edge_inv fmt lower src g p R W Np) as I1. cbn zeta in I1.
+  pose proof (named_ensure_child_edge src g p R W Np Nm) as Nm1.
+  destruct (ensure_child_edge fmt lower g p src) as [g1 s]. cbn [fst snd] in *.
+  destruct I1 as [R1 [W1 [_ [_ [M1 [E1 T1]]]]]].
+  assert (Np1 : node g1 p) by (destruct Np as [E|L]; [left; exact E|right; apply M1, L]).
+  pose proof (ensure_child_edge_inv fmt lower dst g1 p R1 W1 Np1) as I2. cbn zeta in I2.
+  pose proof (named_ensure_child_edge dst g1 p R1 W1 Np1 Nm1) as Nm2.
+  destruct (ensure_child_edge fmt lower g1 p dst) as [g2 d]. cbn [fst snd] in *.
+  destruct I2 as [_ [_ [_ [_ [_ [E2 T2]]]]]].
+  assert (EI2 : EdgeInv g2) by (apply (edgeinv_same_edges g g2); [rewrite E2; exact E1|exact EI]).
+  destruct (edgeinv_add g2 s d sa da EI2) as [A B].
+  split; [exact Nm2|split; [split; assumption|]].
+  cbn [g_tabs]. rewrite T2, T1. exact T0.
+Qed.
+
+Lemma inv_apply_op g o : Inv g -> o <> OpTable [] -> Inv (apply_op fmt lower g o).
+Proof.
+  intros I Ho. destruct o as [scope path|scope src dst sa da|scope]; cbn [apply_op].
   - destruct (inv_ensure_child g 0 scope I (or_introl eq_refl)) as [I1 [N1 _]].
     destruct (ensure_child fmt lower g 0 scope) as [g1 s]. cbn [fst snd] in *.
     apply (inv_ensure_child g1 s path I1 N1).
   - destruct src as [|s0 src]; [exact I|]. destruct dst as [|d0 dst]; [exact I|].
     destruct (inv_ensure_child g 0 scope I (or_introl eq_refl)) as [I1 [N1 _]].
     destruct (ensure_child fmt lower g 0 scope) as [g1 s]. cbn [fst snd] in *.
-    unfold connect.
-    destruct (inv_ensure_child g1 s (s0 :: src) I1 N1) as [I2 [_ M2]].
-    pose proof (ensure_child_inv fmt lower (s0 :: src) g1 s (proj1 I1) (proj1 (proj2 I1)) N1) as X2. cbn zeta in X2.
-    destruct (ensure_child fmt lower g1 s (s0 :: src)) as [g2 a]. cbn [fst snd] in *.
-    destruct X2 as [_ [_ [_ [La _]]]].
-    assert (N2 : node g2 s) by (destruct N1 as [E|L]; [left; exact E|right; apply M2, L]).
-    destruct (inv_ensure_child g2 s (d0 :: dst) I2 N2) as [I3 [_ M3]].
-    pose proof (ensure_child_inv fmt lower (d0 :: dst) g2 s (proj1 I2) (proj1 (proj2 I2)) N2) as X3. cbn zeta in X3.
-    destruct (ensure_child fmt lower g2 s (d0 :: dst)) as [g3 b]. cbn [fst snd] in *.
-    destruct X3 as [_ [_ [_ [Lb _]]]].
-    destruct I3 as [R3 [W3 [Nm3 EI3]]].
-    destruct (edgeinv_add g3 a b sa da EI3) as [E1 E2].
-    split; [|split; [|split]].
-    + destruct R3 as [A [B C]]. repeat split; assumption.
-    + apply wf_set_edges; [exact W3|]. intros e He. apply in_app_or in He as [He|[He|[]]].
-      * apply (wf_edges _ _ W3), He.
-      * subst e. simpl. split; [apply M3, La; discriminate|apply Lb; discriminate].
-    + exact Nm3.
-    + split; assumption.
+    apply inv_connect; try assumption; discriminate.
+  - destruct (inv_ensure_child g 0 scope I (or_introl eq_refl)) as [I1 [N1 L1]].
+    destruct (ensure_child fmt lower g 0 scope) as [g1 s]. cbn [fst snd] in *.
+    destruct I1 as [R1 [W1 [Nm1 [EI1 T1]]]].
+    destruct (make_table_inv lower g1 s R1 W1 N1) as [R2 [W2 [T2 E2]]].
+    split; [exact R2|split; [exact W2|split; [apply named_make_table, Nm1|split]]].
+    + eapply edgeinv_same_edges; eassumption.
+    + intro H. destruct (T2 0 H) as [E|H0]; [|contradiction].
+      destruct scope as [|n rest]; [congruence|].
+      destruct L1 as [L|[_ T]]; [discriminate| |destruct I as [_ [_ [_ [_ T0]]]]; contradiction].
+      subst s. destruct (wf_rootobj _ _ W1) as [N0 _]. contradiction.
 Qed.
 
-Lemma inv_ops ops : forall g, Inv g -> Inv (fold_left (apply_op fmt lower) ops g).
-Proof. induction ops as [|o ops IH]; intros g I; simpl; [exact I|]. apply IH, inv_apply_op, I. Qed.
-
-Lemma inv_run ops : Inv (run_ops fmt lower ops).
+Lemma inv_ops ops : forall g, Inv g -> Forall (fun o => o <> OpTable []) ops ->
+  Inv (fold_left (apply_op fmt lower) ops g).
 Proof.
-  apply inv_ops. split; [apply rep_init|split; [apply wf_init|split; [apply named_init|apply edgeinv_init]]].
+  induction ops as [|o ops IH]; intros g I F; simpl; [exact I|].
+  inversion F; subst. apply IH; [apply inv_apply_op; assumption|assumption].
+Qed.
+
+Lemma inv_run ops : Forall (fun o => o <> OpTable []) ops -> Inv (run_ops fmt lower ops).
+Proof.
+  intro F. apply inv_ops; [|exact F].
+  split; [apply rep_init|split; [apply wf_init|split; [apply named_init|split; [apply edgeinv_init|intros []]]]].
 Qed.
 
 (* ------------------------------------------------------------------ the theorems *)
